@@ -81,6 +81,8 @@ ASSUMPTIONS = [
     "C10: 'buffer results identical' for write_config/bind_config/delete_config rests on obligation (i) (only "
     "configuration state is modified) and, for bind_config, on the substituted read having the value just written "
     "(not covered here: C01's rewrite obligations)",
+    "C10: Check_DeleteConfigWrite / Check_ExtendEqv are examined for 1, 2 and 3 candidate fields (the loops over the "
+    "fields are executed, not cut) and for every sequence of solver answers; per field the atoms are unconstrained",
     "C10: the argument processors of the API wrappers (cursor forwarding, ConfigA, NewExprA) are not covered here "
     "(C06/C16)",
 ]
@@ -142,7 +144,7 @@ def capture(which, nfields, prefix):
     fields = _fields(nfields)
     orc = Oracle(prefix)
     rec = dict(which=which, fields=fields, asked=[], tern={}, elem={}, empty={}, sets={}, ctxt=[], orc=orc,
-               protocol=[], pushes=0, pops=0)
+               protocol=[], pushes=0, pops=0, z3={})
     P = Sym("P")
     rec["P"] = P
     rec["tern"][P] = ("bool", "P")
@@ -256,9 +258,11 @@ def capture(which, nfields, prefix):
                 self._bind_atom(s, info)
 
         def _bind_atom(self, s, info):
-            nm = f"{s.name()}_{id(s) % 100000}"
-            v = z3.Bool(nm + "!v") if info[0] == "bool" else z3.Int(nm + "!v")
-            self.env[s] = TernVal(v, z3.Bool(nm + "!d"))
+            if s not in rec["z3"]:
+                nm = f"{s.name()}#{len(rec['z3'])}"
+                v = z3.Bool(nm + "!v") if info[0] == "bool" else z3.Int(nm + "!v")
+                rec["z3"][s] = (v, z3.Bool(nm + "!d"))
+            self.env[s] = TernVal(*rec["z3"][s])
 
         def push(self):
             rec["pushes"] += 1
@@ -285,7 +289,6 @@ def capture(which, nfields, prefix):
                 raise Unsupported("a ternary formula is handed to the solver")
             ans = orc.answer()
             rec["asked"].append((e, smt_e, ans))
-            rec["solver"] = self
             return ans
 
     patch = dict(ContextExtraction=FakeCtxt, SMTSolver=CapturingSolver, stmts_effs=stmts_effs, globenv=globenv,
@@ -293,6 +296,9 @@ def capture(which, nfields, prefix):
     old = {k: getattr(NE, k) for k in patch}
     for k, v in patch.items():
         setattr(NE, k, v)
+    import exo.rewrite.new_analysis_core as NAC
+    old_factory = NAC._get_smt_solver
+    NAC._get_smt_solver = lambda: None       # the pysmt back end is never used by the capturing solver
     try:
         try:
             if which == "delete":
@@ -303,7 +309,1037 @@ def capture(which, nfields, prefix):
         except NE.SchedulingError as e:
             rec["result"], rec["raised"] = None, e
     finally:
+        NAC._get_smt_solver = old_factory
         for k, v in old.items():
             setattr(NE, k, v)
     rec.update(proc=proc, stmts0=stmts0, stmts1=stmts1, LS=LS, A=A)
     return rec
+
+
+# ============================================================================
+# Part A: classical reading and the obligations
+# ============================================================================
+
+Loc = z3.DeclareSort("LocC10")
+
+
+class Sem:
+    """z3 side of one captured run: representation axioms of the atoms"""
+    def __init__(self, rec):
+        self.rec = rec
+        self.axioms = []
+        self.cl = {}
+        self.setfn = {}
+        for s, info in rec["tern"].items():
+            if s not in rec["z3"]:
+                continue                      # never reached the solver
+            v, d = rec["z3"][s]
+            if info[1] == "empty":
+                x = z3.Const("x!e", Loc)
+                b = z3.ForAll([x], z3.Not(self.member(info[2], x)))
+            else:
+                b = z3.Const(str(v)[:-2] + "!c", v.sort())
+            self.cl[s] = b
+            self.axioms.append(z3.Implies(d, v == b))
+
+    def setpred(self, key):
+        if key not in self.setfn:
+            self.setfn[key] = z3.Function(f"{key[1]}_{key[0]}", Loc, z3.BoolSort())
+        return self.setfn[key]
+
+    def member(self, ls, x):
+        LS = self.rec["LS"]
+        if isinstance(ls, LS.Empty):
+            return z3.BoolVal(False)
+        if isinstance(ls, LS.WholeBuf) and ls.name in self.rec["sets"]:
+            return self.setpred(self.rec["sets"][ls.name])(x)
+        if isinstance(ls, LS.Union):
+            return z3.Or(self.member(ls.lhs, x), self.member(ls.rhs, x))
+        if isinstance(ls, LS.Isct):
+            return z3.And(self.member(ls.lhs, x), self.member(ls.rhs, x))
+        if isinstance(ls, LS.Diff):
+            return z3.And(self.member(ls.lhs, x), z3.Not(self.member(ls.rhs, x)))
+        raise Unsupported(f"location set {type(ls).__name__}")
+
+    def pre(self, f, typ):
+        s = self.rec["pre"][f]
+        return z3.Bool(repr(s)) if typ == T.bool else z3.Int(repr(s))
+
+    def post(self, k, f):
+        return self.cl[self.rec["post"][k][f]]
+
+    def elem(self, f, tag, code):
+        """classical 'f is in the set'; an atom the code never asked about is
+        an unconstrained fact"""
+        s = self.rec["elem"].get((f, (tag, code)))
+        if s is None:
+            return z3.Bool(f"unasked_{f.name()}_{code}_{tag}")
+        return self.cl[s]
+
+    def P(self):
+        return self.cl[self.rec["P"]]
+
+
+def _check(hyps, goal, tmo):
+    s = z3.Solver()
+    s.set("timeout", tmo)
+    for h in hyps:
+        s.add(h)
+    s.add(z3.Not(goal))
+    t0 = time.time()
+    r = s.check()
+    return r, time.time() - t0
+
+
+def explore(which, nfields, max_runs=5000):
+    """all answer sequences of the scripted solver"""
+    work, out = [[]], []
+    while work:
+        prefix = work.pop()
+        rec = capture(which, nfields, prefix)
+        out.append(rec)
+        work.extend(rec["orc"].alts)
+        if len(out) > max_runs:
+            raise Unsupported("too many solver-answer sequences")
+    return out
+
+
+# ----------------------------------------------------------------------------
+# witnesses: real procedures through the real, unstubbed operations
+
+WITNESS_SRC = '''
+from __future__ import annotations
+from exo import proc, config
+from exo.stdlib.scheduling import *
+
+@config
+class CFG:
+    a: index
+    b: index
+
+@config
+class CFGR:
+    s: f32
+
+@proc
+def read_later(N: size, x: R[N]):
+    CFG.a = 3
+    for i in seq(0, N):
+        if i < CFG.a:
+            x[i] = x[i] + 1.0
+
+@proc
+def not_read(N: size, x: R[N]):
+    CFG.a = 3
+    for i in seq(0, N):
+        x[i] = x[i] + 1.0
+
+@proc
+def shadowed(N: size, x: R[N]):
+    CFG.a = 34
+    CFG.a = 3
+    for i in seq(0, N):
+        if i < CFG.a:
+            x[i] = x[i] + 1.0
+
+@proc
+def overwritten_later(N: size, x: R[N]):
+    CFG.a = 34
+    for i in seq(0, N):
+        x[i] = x[i] + 1.0
+    CFG.a = 3
+
+@proc
+def scaled(N: size, x: f32[N], s: f32):
+    for i in seq(0, N):
+        x[i] = x[i] * s
+
+@proc
+def set_ab():
+    CFG.a = 3
+    CFG.b = 5
+
+@proc
+def set_ab_twin():
+    CFG.a = 3
+    CFG.b = 5
+
+@proc
+def caller_reads(N: size, x: R[N]):
+    set_ab()
+    for i in seq(0, N):
+        if i < CFG.a:
+            x[i] = x[i] + 1.0
+
+@proc
+def caller_ignores(N: size, x: R[N]):
+    set_ab()
+    for i in seq(0, N):
+        x[i] = x[i] + 1.0
+
+@proc
+def caller_overwrites(N: size, x: R[N]):
+    set_ab()
+    CFG.a = 7
+    for i in seq(0, N):
+        if i < CFG.a:
+            x[i] = x[i] + 1.0
+
+def cases():
+    set_b = delete_config(set_ab, "CFG.a = _")          # equivalent to set_ab modulo {CFG_a}
+    return [
+        ("delete_config of a write that is read later",
+         read_later, lambda: delete_config(read_later, "CFG.a = _"), None),
+        ("delete_config of a write that nobody reads",
+         not_read, lambda: delete_config(not_read, "CFG.a = _"), ["CFG_a"]),
+        ("delete_config of a write that is overwritten before the read",
+         shadowed, lambda: delete_config(shadowed, "CFG.a = _ #0"), []),
+        ("delete_config of the write whose value is read",
+         shadowed, lambda: delete_config(shadowed, "CFG.a = _ #1"), None),
+        ("delete_config of a write that is overwritten at the end",
+         overwritten_later, lambda: delete_config(overwritten_later, "CFG.a = _ #0"), []),
+        ("write_config of a field nobody reads",
+         not_read, lambda: write_config(not_read, not_read.find_loop("i").after(), CFG, "b", "4"), ["CFG_b"]),
+        ("write_config of a different value to a field that is read later",
+         read_later, lambda: write_config(read_later, read_later.find_loop("i").before(), CFG, "a", "5"), None),
+        ("write_config of the same value to a field that is read later",
+         read_later, lambda: write_config(read_later, read_later.find_loop("i").before(), CFG, "a", "3"), []),
+        ("bind_config of a scalar argument",
+         scaled, lambda: bind_config(scaled, "s", CFGR, "s"), ["CFGR_s"]),
+        ("call_eqv (callees differ on CFG_a) where CFG_a is read afterwards",
+         caller_reads, lambda: call_eqv(caller_reads, "set_ab()", set_b), None),
+        ("call_eqv (callees differ on CFG_a) where nobody reads CFG_a",
+         caller_ignores, lambda: call_eqv(caller_ignores, "set_ab()", set_b), ["CFG_a"]),
+        ("call_eqv (callees differ on CFG_a) where CFG_a is overwritten before the read",
+         caller_overwrites, lambda: call_eqv(caller_overwrites, "set_ab()", set_b), []),
+        ("call_eqv with a callee that was not derived from the original one",
+         caller_ignores, lambda: call_eqv(caller_ignores, "set_ab()", set_ab_twin), None),
+    ]
+'''
+
+
+def run_witnesses():
+    """[(name, expected, observed)]; expected/observed: None = rejected with a
+    SchedulingError, list = accepted and get_strictest_eqv_proc(original,
+    result) reports exactly these fields"""
+    import importlib.util, tempfile, shutil
+    from exo.rewrite.new_eff import SchedulingError
+    from exo.core.proc_eqv import get_strictest_eqv_proc
+    d = tempfile.mkdtemp(prefix="pyvc_c10_", dir="/var/tmp")
+    try:
+        p = os.path.join(d, "c10_witness_procs.py")
+        with open(p, "w") as f:
+            f.write(WITNESS_SRC)
+        spec = importlib.util.spec_from_file_location("c10_witness_procs", p)
+        mod = importlib.util.module_from_spec(spec)
+        import sys as _sys
+        _sys.modules["c10_witness_procs"] = mod       # inspect.getsource of the @config classes needs it
+        try:
+            spec.loader.exec_module(mod)
+            cases = mod.cases()
+        finally:
+            _sys.modules.pop("c10_witness_procs", None)
+        out = []
+        for name, orig, op, expected in cases:
+            try:
+                q = op()
+                ok, ks = get_strictest_eqv_proc(orig._loopir_proc, q._loopir_proc)
+                got = sorted(str(k) for k in ks) if ok else "not related to the original procedure"
+            except SchedulingError:
+                got = None
+            except Exception as e:              # anything else is neither 'rejected' nor 'accepted'
+                got = f"crashed: {type(e).__name__}: {str(e)[:120]}"
+            out.append((name, expected, got))
+        return out
+    finally:
+        shutil.rmtree(d, ignore_errors=True)
+
+
+REPLAY = '''#!/venv/bin/python
+"""Replay for C10 / {tgt}: {what}
+exit 1 = the real code violates the obligation."""
+import sys
+sys.path.insert(0, {verif!r})
+from pyvc.run import ensure_repo_on_path
+ensure_repo_on_path()
+from contracts.c10_config import replay
+sys.exit(replay({what!r}))
+'''
+
+
+def replay(what):
+    print("obligation :", what)
+    res = run(tier="quick")
+    for k, v in res["clauses"].items():
+        print(f"  {v:12s} {k.split(' :: ')[-1]}")
+    bad_w = [k for k, v in res["clauses"].items() if "[witness]" in k and v == "refuted"]
+    bad = [k for k, v in res["clauses"].items() if v == "refuted"]
+    print("verdict    :", "confirmed" if bad_w else ("formula obligation refuted" if bad else "not-reproduced"))
+    return 1 if bad else 0
+
+
+def _fmt_keys(x):
+    if isinstance(x, str):
+        return x
+    return "rejected" if x is None else ("accepted, reported fields " + str(x))
+
+
+def run(tier="quick", seed=0):
+    tmo = 60000 if tier == "thorough" else 10000
+    verif = os.path.dirname(os.path.dirname(os.path.abspath(__file__)))
+    res = dict(obligations=0, discharged=0, functions=[TGT_D, TGT_E], samples=[], violations=[], undecided=[],
+               bounded=[], clauses={}, solver_time_s=0.0, assumptions=[])
+
+    try:
+        wit = run_witnesses()
+    except Exception as e:
+        wit = None
+        res["undecided"].append("C10 witnesses could not be run: " + "".join(traceback.format_exception(e))[-800:])
+    wit_bad = wit is not None and any(exp != got for _, exp, got in wit)
+
+    def record(tgt, name, status, dt=0.0, what=None):
+        key = f"{tgt} :: {name}"
+        res["obligations"] += 1
+        res["solver_time_s"] += dt
+        if res["clauses"].get(key) != "refuted":
+            res["clauses"][key] = status
+        if status == "discharged":
+            res["discharged"] += 1
+            if dt and len(res["samples"]) < 3:
+                res["samples"].append(f"{key}: unsat in {dt:.3f}s")
+        elif status == "refuted":
+            if not any(v["obligation"] == key for v in res["violations"]):
+                res["violations"].append(dict(obligation=key, confirmed=wit_bad,
+                                              replay_script=REPLAY.format(verif=verif, tgt=tgt, what=what or name)))
+        else:
+            res["undecided"].append(f"{key}: {what or 'solver returned unknown'}")
+
+    def prove(tgt, name, hyps, goal, ctx):
+        r, dt = _check(hyps, goal, tmo)
+        record(tgt, name, "discharged" if r == z3.unsat else ("refuted" if r == z3.sat else "unknown"), dt,
+               what=f"{name} [{ctx}]")
+
+    for which, tgt in (("delete", TGT_D), ("extend", TGT_E)):
+        for n in (1, 2, 3):
+            try:
+                runs = explore(which, n)
+            except Unsupported as u:
+                res["undecided"].append(f"{tgt}: unsupported: {u}")
+                continue
+            except Exception as e:
+                res["undecided"].append(f"{tgt}: the stubbed run crashed: " + "".join(traceback.format_exception(e))[-800:])
+                continue
+            normal = [r for r in runs if r["raised"] is None]
+            seen_in, seen_out, feasible = False, False, 0
+            for rec in normal:
+                ctx = f"{n} field(s), solver answers {rec['orc'].trace}"
+                try:
+                    sem = Sem(rec)
+                    hyps = list(sem.axioms) + [smt for _, smt, ans in rec["asked"] if ans]
+                    s0 = z3.Solver()
+                    s0.set("timeout", tmo)
+                    s0.add(*hyps)
+                    if s0.check() == z3.unsat:
+                        continue                      # these answers cannot all be given: nothing to prove
+                    feasible += 1
+                    R = rec["result"]
+                    fields = rec["fields"]
+                    record(tgt, "P0 the check takes the effects of the focused statements in their entry state, under "
+                                "'control may reach them', and pops what it pushed",
+                           "discharged" if (not rec["protocol"] and rec["pushes"] == rec["pops"] == 1
+                                            and len(rec["ctxt"]) == 1 and rec["ctxt"][0][0] is rec["proc"]
+                                            and rec["ctxt"][0][1] is rec["stmts0"]) else "refuted",
+                           what="; ".join(rec["protocol"]) or "push/pop or ContextExtraction arguments")
+                    if which == "delete":
+                        x = z3.Const("x", Loc)
+                        prove(tgt, "(i) returns normally ==> the statements modify configuration state only "
+                                   "(Mod is a subset of WrG)", hyps,
+                              z3.Implies(sem.setpred(("stmts", "MODIFY"))(x), sem.setpred(("stmts", "WRITE_G"))(x)), ctx)
+                    ok_names = isinstance(R, set) and all(any(k is f for f, _ in fields) for k in R)
+                    record(tgt, "(iv) the returned set contains only fields that may be written / keys it was given",
+                           "discharged" if ok_names else "refuted", what=f"(iv) [{ctx}]")
+                    if not ok_names:
+                        continue
+                    for f, typ in fields:
+                        if which == "delete":
+                            unchanged = sem.pre(f, typ) == sem.post(0, f)
+                        else:
+                            unchanged = z3.Implies(sem.P(), sem.post(0, f) == sem.post(1, f))
+                        prove(tgt, "(ii) a field that may be read afterwards is unchanged", hyps,
+                              z3.Implies(sem.elem(f, "after", "READ_G"), unchanged), ctx + f", field {f.name()}")
+                        if f in R:
+                            seen_in = True
+                        else:
+                            seen_out = True
+                            prove(tgt, "(iii) a field that is not reported is unchanged or overwritten afterwards", hyps,
+                                  z3.Or(unchanged, sem.elem(f, "after", "WRITE_G")), ctx + f", field {f.name()}")
+                except Unsupported as u:
+                    res["undecided"].append(f"{tgt}: unsupported: {u}")
+            if not (feasible and seen_in and seen_out):
+                res["undecided"].append(f"{tgt}: canary failed with {n} field(s): {feasible} feasible normal returns, "
+                                        f"reported field seen: {seen_in}, unreported field seen: {seen_out}")
+
+    if wit is not None:
+        tgt = "src/exo/API_scheduling.py::write_config/bind_config/delete_config/call_eqv [witnesses]"
+        for name, exp, got in wit:
+            key = f"{tgt} :: [witness] {name}: {_fmt_keys(exp)}"
+            res["clauses"][key] = "bounded-pass" if exp == got else "refuted"
+            if exp != got:
+                res["violations"].append(dict(obligation=key, confirmed=True,
+                                              replay_script=REPLAY.format(verif=verif, tgt=tgt,
+                                                                          what=f"{name}: expected {_fmt_keys(exp)}, "
+                                                                               f"observed {_fmt_keys(got)}")))
+        res["bounded"].append(dict(target=tgt + " real effect extraction, real solver, real proc_eqv", cases=len(wit),
+                                   bound="hand-written procedures; sampled, not proof"))
+    res["solver_time_s"] = round(res["solver_time_s"], 3)
+    return res
+
+
+ENGINES = ["contracts.c10_config:run"]
+
+
+# ============================================================================
+# Part B: the set returned by the check is the set recorded with the derivation
+# ============================================================================
+#
+# The real functions are interpreted on real little procedures with real
+# cursors; cursor plumbing (exo.core.internal_cursors, exo.API_cursors) runs
+# natively - it is the subject of C06/C16.  The checks and the equivalence
+# tracker are modular callees that return *token sets* (sets of fresh symbols
+# that occur nowhere else: the code can only pass them on, copy them or drop
+# them) and record their arguments in a ghost event list.
+
+from exo.core import internal_cursors as _ic
+
+_X, _Y, _SC = Sym("x"), Sym("y"), Sym("s")
+KA, KB, KC = Sym("KA"), Sym("KB"), Sym("KC")
+
+
+def _sched_error():
+    from exo.rewrite.new_eff import SchedulingError
+    return SchedulingError
+
+
+def events(g):
+    return g.ghost.setdefault("events", [])
+
+
+def _assign(sym, v):
+    return LoopIR.Assign(sym, T.f32, [], LoopIR.Const(v, T.f32, SRC), SRC)
+
+
+def _proc_args():
+    return [LoopIR.fnarg(_X, T.f32, DRAM, SRC), LoopIR.fnarg(_Y, T.f32, DRAM, SRC),
+            LoopIR.fnarg(_SC, T.f32, DRAM, SRC)]
+
+
+def _mk_proc(body, name="p"):
+    return LoopIR.proc(name, _proc_args(), [], body, None, SRC)
+
+
+def _same_list(xs, ys):
+    return len(xs) == len(ys) and all(x is y for x, y in zip(xs, ys))
+
+
+def _is_write(s, config, field, rhs):
+    return isinstance(s, LoopIR.WriteConfig) and s.config is config and s.field == field and s.rhs is rhs
+
+
+# --- modular callees (one implementation for the symbolic and the native run) ---
+
+def _check_delete_impl(g, proc, stmts):
+    events(g).append(("check_delete", proc, list(stmts)))
+    if g.choose(["returns", "raises"], "Check_DeleteConfigWrite") == "raises":
+        raise _sched_error()("abstract failure of Check_DeleteConfigWrite")
+    return {KA}
+
+
+def _check_extend_impl(g, proc, stmts0, stmts1, cfg_mod):
+    events(g).append(("check_extend", proc, list(stmts0), list(stmts1), cfg_mod))
+    if g.choose(["returns", "raises"], "Check_ExtendEqv") == "raises":
+        raise _sched_error()("abstract failure of Check_ExtendEqv")
+    return {KB}
+
+
+def _strictest_impl(g, p1, p2):
+    events(g).append(("strictest", p1, p2))
+    is_eqv = g.bool("is_eqv")
+    g.ghost["is_eqv"] = is_eqv
+    return is_eqv, {KB, KC}
+
+
+def _aliasing_impl(g, proc):
+    events(g).append(("aliasing", proc))
+
+
+def _wrap_exc(f):
+    def result(g, a):
+        try:
+            return f(g, a)
+        except Exception as e:
+            if isinstance(e, _sched_error()):
+                raise ProgExc(e)
+            raise
+    return result
+
+
+NOTE_CHECK = ("returns normally only under the conditions (i)-(iii) examined by contracts.c10_config:run on its "
+              "formulas; the returned set is arbitrary here")
+
+
+def with_checks(c):
+    c.callee("Check_DeleteConfigWrite", result=_wrap_exc(lambda g, a: _check_delete_impl(g, a.proc, a.stmts)),
+             assumed=False, note=NOTE_CHECK)
+    c.callee("Check_ExtendEqv",
+             result=_wrap_exc(lambda g, a: _check_extend_impl(g, a.proc, a.stmts0, a.stmts1, a.cfg_mod)),
+             assumed=False, note=NOTE_CHECK)
+    c.callee("get_strictest_eqv_proc", result=lambda g, a: _strictest_impl(g, a.proc1, a.proc2), assumed=False,
+             note="C11: returns (related at all, exactly the keys whose relation does not relate the two procs)")
+    c.callee("Check_Aliasing", result=lambda g, a: _aliasing_impl(g, a.proc), assumed=True,
+             note="Check_Aliasing(proc) is outside C10")
+    c.native_modules.add("exo.core.internal_cursors")
+    return c
+
+
+def _native_sched(call):
+    """Replay entry: the real function runs natively with the same recorders
+    patched into exo.rewrite.LoopIR_scheduling."""
+    def entry(g, fn, a):
+        import exo.rewrite.LoopIR_scheduling as LS_
+        patch = dict(
+            Check_DeleteConfigWrite=lambda proc, stmts: _check_delete_impl(g, proc, stmts),
+            Check_ExtendEqv=lambda proc, s0, s1, cfg: _check_extend_impl(g, proc, s0, s1, cfg),
+            get_strictest_eqv_proc=lambda p1, p2: _strictest_impl(g, p1, p2),
+            Check_Aliasing=lambda proc: _aliasing_impl(g, proc))
+        old = {k: getattr(LS_, k) for k in patch}
+        for k, v in patch.items():
+            setattr(LS_, k, v)
+        try:
+            return call(fn, a)
+        finally:
+            for k, v in old.items():
+                setattr(LS_, k, v)
+    return entry
+
+
+def _ev(a, kind):
+    return [e for e in events(a.g) if e[0] == kind]
+
+
+# ----------------------------------------------------------------------------
+# DoConfigWrite
+
+cdw = with_checks(contract("C10", FS, "DoConfigWrite"))
+
+
+@cdw.inputs
+def _(g):
+    g.ghost["events"] = []
+    s1, s2 = _assign(_X, 1.0), _assign(_Y, 2.0)
+    proc = _mk_proc([s1, s2])
+    k = g.choose([0, 1], "anchor")
+    before = g.choose([False, True], "before")
+    kind = g.choose(["const", "read"], "rhs")
+    cfg = _config()
+    if kind == "const":
+        field, expr = "a", LoopIR.Const(g.int("v"), T.int, SRC)
+    else:
+        field, expr = "c", LoopIR.Read(_SC, [], T.f32, SRC)
+    cur = _ic.Cursor.create(proc).body()[k]
+    return {"stmt_cursor": cur, "config": cfg, "field": field, "expr": expr, "before": before,
+            "__ghost__": {"proc": proc, "s1": s1, "s2": s2, "k": k}}
+
+
+cdw.raises(_sched_error(), label="SchedulingError only from the check")
+
+
+@cdw.ensures("the new write is inserted at the requested gap, nothing else changes")
+def _(a):
+    ir, gh = a.result[0], a.ghost
+    pos = gh.k if a.before else gh.k + 1
+    body = list(ir.body)
+    if len(body) != 3 or not _is_write(body[pos], a.config, a.field, a.expr):
+        return False
+    return _same_list(body[:pos] + body[pos + 1:], [gh.s1, gh.s2])
+
+
+@cdw.ensures("the check is asked once, about exactly the inserted statement in the procedure that contains it")
+def _(a):
+    ev = _ev(a, "check_delete")
+    if len(ev) != 1:
+        return False
+    _, proc, stmts = ev[0]
+    return proc is a.result[0] and len(stmts) == 1 and any(s is stmts[0] for s in proc.body) \
+        and _is_write(stmts[0], a.config, a.field, a.expr)
+
+
+@cdw.ensures("the reported set is the set returned by the check")
+def _(a):
+    return a.result[2] == {KA}
+
+
+cdw.native_entry = _native_sched(lambda fn, a: fn(a.stmt_cursor, a.config, a.field, a.expr, before=a.before))
+
+
+# ----------------------------------------------------------------------------
+# DoBindConfig
+
+cbc = with_checks(contract("C10", FS, "DoBindConfig"))
+_CALLEE = LoopIR.proc("callee", [LoopIR.fnarg(Sym("v"), T.f32, DRAM, SRC)], [], [LoopIR.Pass(SRC)], None, SRC)
+
+
+@cbc.inputs
+def _(g):
+    g.ghost["events"] = []
+    rd = LoopIR.Read(_SC, [], T.f32, SRC)
+    shape = g.choose(["assign", "call", "nested"], "use")
+    s0 = _assign(_Y, 2.0)
+    if shape == "assign":
+        st = LoopIR.Assign(_X, T.f32, [], rd, SRC)
+        proc = _mk_proc([s0, st])
+        cur = _ic.Cursor.create(proc).body()[1]._child_node("rhs")
+    elif shape == "call":
+        st = LoopIR.Call(_CALLEE, [rd], SRC)
+        proc = _mk_proc([s0, st])
+        cur = _ic.Cursor.create(proc).body()[1]._child_node("args", 0)
+    else:
+        st = LoopIR.Assign(_X, T.f32, [], LoopIR.BinOp("*", LoopIR.Read(_X, [], T.f32, SRC), rd, T.f32, SRC), SRC)
+        proc = _mk_proc([s0, st])
+        cur = _ic.Cursor.create(proc).body()[1]._child_node("rhs")._child_node("rhs")
+    assert cur._node is rd
+    return {"config": _config(), "field": "c", "expr_cursor": cur,
+            "__ghost__": {"proc": proc, "s0": s0, "st": st, "rd": rd, "shape": shape}}
+
+
+cbc.raises(_sched_error(), label="SchedulingError only from the check")
+
+
+def _bound_read(a, ir):
+    st = ir.body[2]
+    if a.ghost.shape == "assign":
+        return st.rhs
+    if a.ghost.shape == "call":
+        return st.args[0] if len(st.args) == 1 else None
+    return st.rhs.rhs
+
+
+@cbc.ensures("config.field = e is inserted before the statement and e is replaced by a read of config.field")
+def _(a):
+    ir, gh = a.result[0], a.ghost
+    body = list(ir.body)
+    if len(body) != 3 or body[0] is not gh.s0 or not _is_write(body[1], a.config, a.field, gh.rd):
+        return False
+    r = _bound_read(a, ir)
+    return isinstance(r, LoopIR.ReadConfig) and r.config is a.config and r.field == a.field
+
+
+@cbc.ensures("the check is asked once, about exactly the inserted write, in the procedure that contains it")
+def _(a):
+    ev = _ev(a, "check_delete")
+    if len(ev) != 1:
+        return False
+    _, proc, stmts = ev[0]
+    return len(stmts) == 1 and _is_write(stmts[0], a.config, a.field, a.ghost.rd) \
+        and any(s is stmts[0] for s in proc.body) and any(s is stmts[0] for s in a.result[0].body) \
+        and proc.body[0] is a.ghost.s0 and len(proc.body) == 3
+
+
+@cbc.ensures("the reported set is the set returned by the check")
+def _(a):
+    return a.result[2] == {KA}
+
+
+cbc.native_entry = _native_sched(lambda fn, a: fn(a.config, a.field, a.expr_cursor))
+
+
+# ----------------------------------------------------------------------------
+# DoDeleteConfig
+
+cdc = with_checks(contract("C10", FS, "DoDeleteConfig"))
+
+
+@cdc.inputs
+def _(g):
+    g.ghost["events"] = []
+    cfg = _config()
+    s1, s2 = _assign(_X, 1.0), _assign(_Y, 2.0)
+    w = LoopIR.WriteConfig(cfg, "a", LoopIR.Const(g.int("v"), T.int, SRC), SRC)
+    k = g.choose([0, 1, 2], "position")
+    body = [s1, s2]
+    body.insert(k, w)
+    proc = _mk_proc(body)
+    root = _ic.Cursor.create(proc)
+    # call site (delete_config): proc._root() and a statement cursor of the same procedure
+    return {"proc_cursor": root, "config_cursor": root.body()[k],
+            "__ghost__": {"proc": proc, "w": w, "rest": [s1, s2]}}
+
+
+cdc.raises(_sched_error(), label="SchedulingError only from the check")
+
+
+@cdc.ensures("exactly the checked statement is deleted")
+def _(a):
+    return _same_list(list(a.result[0].body), a.ghost.rest)
+
+
+@cdc.ensures("the check is asked once, about exactly the deleted statement in the procedure that contains it")
+def _(a):
+    ev = _ev(a, "check_delete")
+    if len(ev) != 1:
+        return False
+    _, proc, stmts = ev[0]
+    return proc is a.ghost.proc and len(stmts) == 1 and stmts[0] is a.ghost.w
+
+
+@cdc.ensures("the reported set is the set returned by the check")
+def _(a):
+    return a.result[2] == {KA}
+
+
+cdc.native_entry = _native_sched(lambda fn, a: fn(a.proc_cursor, a.config_cursor))
+
+
+# ----------------------------------------------------------------------------
+# DoCallSwap
+
+ccs = with_checks(contract("C10", FS, "DoCallSwap"))
+_CALLEE2 = LoopIR.proc("callee2", [LoopIR.fnarg(Sym("v"), T.f32, DRAM, SRC)], [], [LoopIR.Pass(SRC)], None, SRC)
+
+
+@ccs.inputs
+def _(g):
+    g.ghost["events"] = []
+    s0 = _assign(_Y, 2.0)
+    call = LoopIR.Call(_CALLEE, [LoopIR.Read(_SC, [], T.f32, SRC)], SRC)
+    k = g.choose([0, 1], "position")
+    body = [s0]
+    body.insert(k, call)
+    proc = _mk_proc(body)
+    return {"call_cursor": _ic.Cursor.create(proc).body()[k], "new_subproc": _CALLEE2,
+            "__ghost__": {"proc": proc, "call": call, "s0": s0, "k": k}}
+
+
+ccs.raises(_sched_error(), label="SchedulingError only from the equivalence test or the check")
+
+
+@ccs.ensures("the swap proceeds only if get_strictest_eqv_proc relates the old and the new callee")
+def _(a):
+    ev = _ev(a, "strictest")
+    return And(len(ev) == 1 and ev[0][1] is _CALLEE and ev[0][2] is _CALLEE2, a.g.ghost["is_eqv"])
+
+
+@ccs.ensures("Check_ExtendEqv is asked about the old call, the new call and exactly the keys get_strictest_eqv_proc returned")
+def _(a):
+    ev = _ev(a, "check_extend")
+    if len(ev) != 1:
+        return False
+    _, proc, st0, st1, keys = ev[0]
+    return proc is a.ghost.proc and len(st0) == 1 and st0[0] is a.ghost.call and len(st1) == 1 \
+        and isinstance(st1[0], LoopIR.Call) and st1[0].f is _CALLEE2 and _same_list(st1[0].args, a.ghost.call.args) \
+        and keys == {KB, KC}
+
+
+@ccs.ensures("the reported set is the set returned by Check_ExtendEqv")
+def _(a):
+    return a.result[2] == {KB}
+
+
+@ccs.ensures("only the callee of the call changes")
+def _(a):
+    body = list(a.result[0].body)
+    k = a.ghost.k
+    return len(body) == 2 and body[1 - k] is a.ghost.s0 and isinstance(body[k], LoopIR.Call) \
+        and body[k].f is _CALLEE2 and _same_list(body[k].args, a.ghost.call.args)
+
+
+ccs.native_entry = _native_sched(lambda fn, a: fn(a.call_cursor, a.new_subproc))
+
+
+# ----------------------------------------------------------------------------
+# API wrappers (the functions under @sched_op; argument processing not covered)
+
+class Tok:
+    def __init__(self, name):
+        self.name = name
+
+    def __repr__(self):
+        return f"<{self.name}>"
+
+
+IR_TOK, FWD_TOK = Tok("ir returned by Do*"), Tok("fwd returned by Do*")
+
+
+def _do_impl(kind):
+    def impl(g, *args, **kw):
+        events(g).append((kind, args, kw))
+        return IR_TOK, FWD_TOK, {KA, KB}
+    return impl
+
+
+def _procedure_impl(g, obj, proc, prov=None, fwd=None, mod=None):
+    events(g).append(("Procedure", obj, proc, prov, fwd, mod))
+
+
+def with_wrappers(c):
+    c.callee("DoConfigWrite", assumed=False, note="contract above",
+             result=lambda g, a: _do_impl("DoConfigWrite")(g, a.stmt_cursor, a.config, a.field, a.expr, before=a.before))
+    c.callee("DoBindConfig", assumed=False, note="contract above",
+             result=lambda g, a: _do_impl("DoBindConfig")(g, a.config, a.field, a.expr_cursor))
+    c.callee("DoDeleteConfig", assumed=False, note="contract above",
+             result=lambda g, a: _do_impl("DoDeleteConfig")(g, a.proc_cursor, a.config_cursor))
+    c.callee("DoCallSwap", assumed=False, note="contract above",
+             result=lambda g, a: _do_impl("DoCallSwap")(g, a.call_cursor, a.new_subproc))
+    c.callee("Procedure.__init__", assumed=False, note="contract below",
+             result=lambda g, a: _procedure_impl(g, a.self, a.proc, a._provenance_eq_Procedure, a._forward,
+                                                 a._mod_config))
+    c.native_modules.add("exo.core.internal_cursors")
+    c.native_modules.add("exo.API_cursors")
+    c.entry = lambda g, it, fn, a: it.call(fn.func, [], {k: v for k, v in a.__dict__.items()
+                                                          if k not in ("ghost", "g", "exc", "result")})
+    c.native_entry = _native_wrapper
+    return c
+
+
+def _native_wrapper(g, fn, a):
+    import exo.rewrite.LoopIR_scheduling as LS_
+    import exo.API_scheduling as AS_
+
+    def fake_procedure(proc, _provenance_eq_Procedure=None, _forward=None, _mod_config=None):
+        obj = Tok("new Procedure")
+        _procedure_impl(g, obj, proc, _provenance_eq_Procedure, _forward, _mod_config)
+        return obj
+    patch = {k: (lambda k: lambda *args, **kw: _do_impl(k)(g, *args, **kw))(k)
+             for k in ("DoConfigWrite", "DoBindConfig", "DoDeleteConfig", "DoCallSwap")}
+    old = {k: getattr(LS_, k) for k in patch}
+    oldp = AS_.Procedure
+    for k, v in patch.items():
+        setattr(LS_, k, v)
+    AS_.Procedure = fake_procedure
+    try:
+        return fn.func(**{k: v for k, v in a.__dict__.items() if k not in ("ghost", "g", "exc", "result")})
+    finally:
+        AS_.Procedure = oldp
+        for k, v in old.items():
+            setattr(LS_, k, v)
+
+
+def _real_procedure(body):
+    from exo.API import Procedure
+    return Procedure(_mk_proc(body))
+
+
+def _recorded(a, do_kind):
+    """(Do* event, Procedure event) if the wrapper made exactly one call of each"""
+    d = [e for e in events(a.g) if e[0] == do_kind]
+    p = [e for e in events(a.g) if e[0] == "Procedure"]
+    others = [e for e in events(a.g) if e[0] not in (do_kind, "Procedure")]
+    if len(d) != 1 or len(p) != 1 or others:
+        return None
+    return d[0], p[0]
+
+
+def _records_set(a, do_kind):
+    r = _recorded(a, do_kind)
+    if r is None:
+        return False
+    _, (_, obj, proc, prov, fwd, mod) = r
+    return a.result is obj and proc is IR_TOK and prov is a.proc and fwd is FWD_TOK and mod == {KA, KB}
+
+
+LBL_SET = "the new Procedure is derived from the given one with exactly the set returned by the rewrite"
+
+cwc = with_wrappers(contract("C10", FA, "write_config"))
+
+
+@cwc.inputs
+def _(g):
+    g.ghost["events"] = []
+    p = _real_procedure([_assign(_X, 1.0), _assign(_Y, 2.0)])
+    k = g.choose([0, 1], "anchor")
+    before = g.choose([True, False], "gap")
+    gap = p.body()[k].before() if before else p.body()[k].after()
+    kind = g.choose(["const", "read", "stride", "binop"], "rhs")
+    rhs = {"const": LoopIR.Const(g.int("v"), T.int, SRC), "read": LoopIR.Read(_SC, [], T.f32, SRC),
+           "stride": LoopIR.StrideExpr(_X, 0, T.stride, SRC),
+           "binop": LoopIR.BinOp("+", LoopIR.Const(1, T.int, SRC), LoopIR.Const(2, T.int, SRC), T.int, SRC)}[kind]
+    return {"proc": p, "gap_cursor": gap, "config": _config(), "field": "c" if kind == "read" else "a", "rhs": rhs,
+            "__ghost__": {"k": k, "before": before, "kind": kind}}
+
+
+cwc.raises(TypeError, when=lambda a: a.ghost.kind == "binop", label="TypeError only for an inadmissible right-hand side")
+cwc.ensures(LBL_SET)(lambda a: _records_set(a, "DoConfigWrite"))
+
+
+@cwc.ensures("the rewrite is asked for the anchor statement of the gap, the given config, field and value, on the right side")
+def _(a):
+    r = _recorded(a, "DoConfigWrite")
+    if r is None:
+        return False
+    (_, args, kw), _ = r
+    return len(args) == 4 and args[0]._node is a.proc._loopir_proc.body[a.ghost.k] \
+        and args[0].get_root() is a.proc._loopir_proc and args[1] is a.config and args[2] == a.field \
+        and args[3] is a.rhs and kw == {"before": a.ghost.before}
+
+
+cbw = with_wrappers(contract("C10", FA, "bind_config"))
+
+
+@cbw.inputs
+def _(g):
+    g.ghost["events"] = []
+    kind = g.choose(["scalar", "indexed", "index-typed"], "expr")
+    if kind == "scalar":
+        rd = LoopIR.Read(_SC, [], T.f32, SRC)
+    elif kind == "indexed":
+        rd = LoopIR.Read(_SC, [LoopIR.Const(0, T.int, SRC)], T.f32, SRC)
+    else:
+        rd = LoopIR.Read(Sym("i"), [], T.index, SRC)
+    st = LoopIR.Assign(_X, T.f32, [], rd if kind != "index-typed" else LoopIR.Read(_SC, [rd], T.f32, SRC), SRC)
+    p = _real_procedure([_assign(_Y, 2.0), st])
+    cur = p.body()[1].rhs()
+    if kind == "index-typed":
+        cur = cur.idx()[0]
+    field = g.choose(["c", "a"], "field")
+    return {"proc": p, "var_cursor": cur, "config": _config(), "field": field,
+            "__ghost__": {"kind": kind, "rd": rd}}
+
+
+cbw.raises(TypeError, when=lambda a: not (a.ghost.kind == "scalar" and a.field == "c"),
+           label="TypeError only for a non-scalar read or a type mismatch with the field")
+cbw.ensures(LBL_SET)(lambda a: _records_set(a, "DoBindConfig"))
+
+
+@cbw.ensures("the rewrite is asked for the given config, field and expression")
+def _(a):
+    r = _recorded(a, "DoBindConfig")
+    if r is None:
+        return False
+    (_, args, kw), _ = r
+    return len(args) == 3 and args[0] is a.config and args[1] == a.field and args[2]._node is a.ghost.rd \
+        and args[2].get_root() is a.proc._loopir_proc and not kw
+
+
+cdl = with_wrappers(contract("C10", FA, "delete_config"))
+
+
+@cdl.inputs
+def _(g):
+    g.ghost["events"] = []
+    w = LoopIR.WriteConfig(_config(), "a", LoopIR.Const(g.int("v"), T.int, SRC), SRC)
+    k = g.choose([0, 1], "position")
+    body = [_assign(_X, 1.0)]
+    body.insert(k, w)
+    p = _real_procedure(body)
+    return {"proc": p, "stmt_cursor": p.body()[k], "__ghost__": {"w": w}}
+
+
+cdl.ensures(LBL_SET)(lambda a: _records_set(a, "DoDeleteConfig"))
+
+
+@cdl.ensures("the rewrite is asked for the root of this procedure and the given statement")
+def _(a):
+    r = _recorded(a, "DoDeleteConfig")
+    if r is None:
+        return False
+    (_, args, kw), _ = r
+    return len(args) == 2 and args[0]._node is a.proc._loopir_proc and args[1]._node is a.ghost.w \
+        and args[1].get_root() is a.proc._loopir_proc and not kw
+
+
+cce = with_wrappers(contract("C10", FA, "call_eqv"))
+
+
+@cce.inputs
+def _(g):
+    from exo.API import Procedure
+    g.ghost["events"] = []
+    call = LoopIR.Call(_CALLEE, [LoopIR.Read(_SC, [], T.f32, SRC)], SRC)
+    k = g.choose([0, 1], "position")
+    body = [_assign(_X, 1.0)]
+    body.insert(k, call)
+    p = _real_procedure(body)
+    return {"proc": p, "call_cursor": p.body()[k], "eqv_proc": Procedure(_CALLEE2), "__ghost__": {"call": call}}
+
+
+cce.ensures(LBL_SET)(lambda a: _records_set(a, "DoCallSwap"))
+
+
+@cce.ensures("the swap is asked for the given call and the LoopIR of the given procedure")
+def _(a):
+    r = _recorded(a, "DoCallSwap")
+    if r is None:
+        return False
+    (_, args, kw), _ = r
+    return len(args) == 2 and args[0]._node is a.ghost.call and args[0].get_root() is a.proc._loopir_proc \
+        and args[1] is _CALLEE2 and not kw
+
+
+# ----------------------------------------------------------------------------
+# Procedure.__init__
+
+cpi = contract("C10", FP, "Procedure.__init__")
+
+
+def _derive_impl(g, orig, new, config_set=frozenset()):
+    events(g).append(("derive", orig, new, config_set))
+
+
+def _decl_impl(g, proc):
+    events(g).append(("decl", proc))
+
+
+cpi.callee("derive_proc", assumed=False,
+           note="C11: records one step (orig, new, config_set) - new is equivalent to orig modulo config_set",
+           requires=lambda a: isinstance(a.config_set, frozenset),
+           result=lambda g, a: _derive_impl(g, a.orig_proc, a.new_proc, a.config_set))
+cpi.callee("decl_new_proc", assumed=False, note="C11: a new origin",
+           result=lambda g, a: _decl_impl(g, a.proc))
+
+
+@cpi.inputs
+def _(g):
+    from exo.API import Procedure
+    g.ghost["events"] = []
+    new = _mk_proc([_assign(_X, 1.0)], "q")
+    prov = g.choose([None, "procedure"], "provenance")
+    if prov is not None:
+        prov = Procedure(_mk_proc([_assign(_X, 1.0), _assign(_Y, 2.0)]))
+    mod = g.choose(["None", "empty set", "one key", "two keys", "frozenset", "empty frozenset"], "_mod_config")
+    mod = {"None": None, "empty set": set(), "one key": {KA}, "two keys": {KA, KB}, "frozenset": frozenset({KC}),
+           "empty frozenset": frozenset()}[mod]
+    fwd = g.choose([None, FWD_TOK], "_forward")
+    return {"self": object.__new__(Procedure), "proc": new, "_provenance_eq_Procedure": prov, "_forward": fwd,
+            "_mod_config": mod}
+
+
+@cpi.ensures("a derived procedure is recorded as equivalent to its provenance modulo exactly the given set; "
+             "a procedure without provenance is a new origin")
+def _(a):
+    ev = events(a.g)
+    if len(ev) != 1:
+        return False
+    if a._provenance_eq_Procedure is None:
+        return ev[0][0] == "decl" and ev[0][1] is a.proc
+    kind, orig, new, cs = ev[0][0], ev[0][1], ev[0][2], ev[0][3] if len(ev[0]) > 3 else None
+    return kind == "derive" and orig is a._provenance_eq_Procedure._loopir_proc and new is a.proc \
+        and isinstance(cs, frozenset) and cs == frozenset(a._mod_config or ())
+
+
+@cpi.ensures("the object holds the given LoopIR, provenance and forwarding function")
+def _(a):
+    return a.self._loopir_proc is a.proc and a.self._provenance_eq_Procedure is a._provenance_eq_Procedure \
+        and (a.self._forward is a._forward if a._forward is not None else callable(a.self._forward))
+
+
+def _native_init(g, fn, a):
+    import exo.API as API_
+    old = API_.derive_proc, API_.decl_new_proc
+    API_.derive_proc = lambda *args, **kw: _derive_impl(g, *args, **kw)
+    API_.decl_new_proc = lambda proc: _decl_impl(g, proc)
+    try:
+        return fn(a.self, a.proc, a._provenance_eq_Procedure, a._forward, a._mod_config)
+    finally:
+        API_.derive_proc, API_.decl_new_proc = old
+
+
+cpi.native_entry = _native_init
